@@ -475,22 +475,36 @@ class C11(Check):
     def run_impl(self, cases, tag='impl'):
         """a tree on which most cases crash or hang: every crash restarts the harness (vf gives up only after 400 per call) and
         every hang costs the watchdog time - stop a stream after CRASH_LIMIT crashes (HANG_BUDGET time-outs per run) and report
-        what has been seen; the cases not run are marked `! notrun` (dropped by vf)"""
+        what has been seen; the cases not run are marked `! notrun` (dropped by vf).  vf cannot be interrupted inside a call, so
+        the chunk size is the granularity of the cap: chunks start at 40 cases and double up to 320 while nothing crashes;
+        once half the hang budget is used the watchdog is 2 s instead of 10 s (a case normally takes milliseconds)."""
         res, crashes = [], {}
-        step = 300
+        step = 40
         hangs = getattr(self, '_hangs', 0)
-        for i in range(0, len(cases), step):
+        i = 0
+        if tag.startswith('shr'):
+            # shrinking a failing input: a few more hangs are allowed; after that a candidate is not run and counts as NOT failing,
+            # so that the shrinker keeps the input (and the reason) it has instead of "reducing" on cases it never ran
+            if hangs >= self.HANG_BUDGET + 15:
+                return [[] for _ in cases], {}
+            r, c = run_exe_on_cases(self.exes['impl'], cases, os.path.join(BUILD, self.id, 'run'), tag, is_impl=True,
+                                    per_case_timeout=self.per_case_timeout if hangs < self.HANG_BUDGET // 2 else 2)
+            self._hangs = hangs + sum(1 for v in c.values() if v[0] == 'timeout')
+            return r, c
+        while i < len(cases):
             if len(crashes) >= self.CRASH_LIMIT or hangs >= self.HANG_BUDGET:
                 res += [['! notrun'] for _ in cases[i:]]
                 log('[C11] stream %s: %d harness crashes (%d time-outs so far in this run), %d cases not run' % (tag, len(crashes), hangs, len(cases) - i))
                 break
             r, c = run_exe_on_cases(self.exes['impl'], cases[i:i + step], os.path.join(BUILD, self.id, 'run'), tag, is_impl=True,
-                                    per_case_timeout=self.per_case_timeout)
+                                    per_case_timeout=self.per_case_timeout if hangs < self.HANG_BUDGET // 2 else 2)
             res += r
             for k, v in c.items():
                 crashes[i + k] = v
                 if v[0] == 'timeout':
                     hangs += 1
+            i += step
+            step = min(320, step * 2) if not c else 40
         self._hangs = hangs
         return res, crashes
 
